@@ -16,6 +16,7 @@ import (
 	"math/rand"
 	"os"
 	"reflect"
+	"regexp"
 	"sort"
 	"strings"
 	"time"
@@ -364,6 +365,46 @@ func withSpare(v any) any {
 	return v
 }
 
+// aliasEqual returns v with every non-empty container that equals an earlier one (in a fixed walk
+// order) replaced by that earlier one: a document in which one map or slice is reachable from two
+// positions, as a caller may well build it. The library must treat it like the tree it denotes.
+func aliasEqual(v any, seen map[string]any) any {
+	switch x := v.(type) {
+	case []any:
+		for i := range x {
+			x[i] = aliasEqual(x[i], seen)
+		}
+		if len(x) == 0 {
+			return x
+		}
+		key := string(marshal(encItem(x)))
+		if first, ok := seen[key]; ok {
+			return first
+		}
+		seen[key] = x
+		return x
+	case map[string]any:
+		keys := make([]string, 0, len(x))
+		for k := range x {
+			keys = append(keys, k)
+		}
+		sort.Strings(keys)
+		for _, k := range keys {
+			x[k] = aliasEqual(x[k], seen)
+		}
+		if len(x) == 0 {
+			return x
+		}
+		key := string(marshal(encItem(x)))
+		if first, ok := seen[key]; ok {
+			return first
+		}
+		seen[key] = x
+		return x
+	}
+	return v
+}
+
 func spareOK(v any) bool {
 	switch v := v.(type) {
 	case []any:
@@ -409,6 +450,31 @@ func runExecPure(p *path.Path, doc any, vars map[string]any, c *execCase, docB, 
 		return J{"out": "input-mutated", "what": "spare capacity of an input array was written"}
 	}
 	return res
+}
+
+// isPredicateShape: the grammar makes a path a predicate check expression exactly when its root
+// is a boolean node (connective, comparison, starts with, like_regex, exists, !, is unknown) with
+// no accessor chained to it.
+func isPredicateShape(n ast.Node) bool {
+	if n == nil || reflect.ValueOf(n).IsNil() || n.Next() != nil {
+		return false
+	}
+	switch x := n.(type) {
+	case *ast.BinaryNode:
+		switch x.Operator() {
+		case ast.BinaryAnd, ast.BinaryOr, ast.BinaryEqual, ast.BinaryNotEqual, ast.BinaryLess, ast.BinaryGreater,
+			ast.BinaryLessOrEqual, ast.BinaryGreaterOrEqual, ast.BinaryStartsWith:
+			return true
+		}
+	case *ast.UnaryNode:
+		switch x.Operator() {
+		case ast.UnaryExists, ast.UnaryNot, ast.UnaryIsUnknown:
+			return true
+		}
+	case *ast.RegexNode:
+		return true
+	}
+	return false
 }
 
 // kvBelowGenerated recognises the shape of known finding D30: in one accessor chain a .keyvalue()
@@ -591,13 +657,40 @@ func regexOracle(p *path.Path, doc any, vars map[string]any, lits []string) [][]
 	return out
 }
 
+// regexMatch answers "does like_regex match" from the pattern text and the flag bits by the
+// documented translation (i -> (?i); q -> the pattern is a literal, s and m ignored; otherwise
+// s -> (?s), m -> (?m)), NOT through RegexNode.Regexp(): the library's own translation is part of
+// what C12 checks.
 func regexMatch(n *ast.RegexNode, s string) (res any) {
 	defer func() {
 		if r := recover(); r != nil {
 			res = nil
 		}
 	}()
-	return n.Regexp().MatchString(s)
+	pat, bits := regexParts(n)
+	prefix := ""
+	if bits&1 != 0 {
+		prefix += "i"
+	}
+	expr := pat
+	if bits&16 != 0 {
+		expr = regexp.QuoteMeta(pat)
+	} else {
+		if bits&2 != 0 {
+			prefix += "s"
+		}
+		if bits&4 != 0 {
+			prefix += "m"
+		}
+	}
+	if prefix != "" {
+		expr = "(?" + prefix + ")" + expr
+	}
+	re, err := regexp.Compile(expr)
+	if err != nil {
+		return nil
+	}
+	return re.MatchString(s)
 }
 
 var zoneIDs = []string{"UTC", "UTC", "UTC", "fixed:19800", "fixed:-28800", "fixed:3600", "fixed:50400", "fixed:-43200", "fixed:1234"}
@@ -698,7 +791,19 @@ func execStream(args []string) int {
 		if vars != nil {
 			vars = withSpare(any(vars)).(map[string]any)
 		}
+		if grp%2 == 1 {
+			seen := map[string]any{}
+			doc = aliasEqual(doc, seen)
+			for k, v := range vars {
+				vars[k] = aliasEqual(v, seen)
+			}
+		}
 		astW := encAST(pp.AST)
+		// the predicate flag is derived here from the shape of the tree (a boolean node with nothing
+		// chained to it), not taken from IsPredicate(): ExistsOrMatch dispatches on that method
+		predShape := isPredicateShape(pp.AST.Root())
+		astW.(J)["pred"] = predShape
+		predGlue := pp.IsPredicate() != predShape
 		docW := encItem(doc)
 		varsW := encVars(vars)
 		docB, varsB := marshal(docW), marshal(varsW)
@@ -720,6 +825,9 @@ func execStream(args []string) int {
 			cw.Write(marshal(c))
 			cw.WriteByte('\n')
 			res := runExecPure(pp, doc, vars, c, docB, varsB)
+			if predGlue {
+				res = J{"out": "glue", "what": "IsPredicate() disagrees with the shape of the path"}
+			}
 			res["id"] = c.ID
 			outCount[fmt.Sprint(res["out"], "/", res["class"])]++
 			ow.Write(marshal(res))
